@@ -157,3 +157,49 @@ def render(n, stems, lv):
             s[i - 1] = OPEN[l]
             s[j - 1] = CLOSE[l]
     return "".join(s)
+
+
+def padded(k, tail, block=3):
+    """k leading hairpins '(.)' (one stem each, 3 positions) followed by `tail` shifted: pushes the
+    stem indices of the tail's stems up by k (index-dependent logic: names like x_10_0, set order of ints >= 8)"""
+    out = []
+    for b in range(k):
+        o = b * block
+        out += [o + block] + [0] * (block - 2) + [o + 1]
+    o = k * block
+    out += [(x + o if x else 0) for x in tail]
+    return out
+
+
+def is_knotted(p):
+    prs = [(i + 1, p[i]) for i in range(len(p)) if p[i] > i + 1]
+    for a in range(len(prs)):
+        for b in range(a + 1, len(prs)):
+            if crossing(prs[a], prs[b]):
+                return True
+    return False
+
+
+def interleaved(k, tail):
+    """the tail's positions with a hairpin '(.)' inserted after each of the first k tail positions: spreads the
+    tail's stems over non-consecutive stem indices"""
+    n = len(tail)
+    newpos = {}
+    pos = 0
+    layout = []
+    for i in range(1, n + 1):
+        pos += 1
+        newpos[i] = pos
+        layout.append(("t", i))
+        if i <= k:
+            layout.append(("h", pos + 1))
+            pos += 3
+    out = [0] * pos
+    for kind, v in layout:
+        if kind == "t":
+            if tail[v - 1]:
+                out[newpos[v] - 1] = newpos[tail[v - 1]]
+        else:
+            out[v - 1] = v + 2
+            out[v + 1] = v
+    return out
